@@ -17,7 +17,7 @@ REQUIRED = [
     "introspect_depends_on_token_store_only", "s2s_all_required_definitions_fulfilled_false", "plain_introspection_members",
     "fact_s2s_chain", "fact_code_token_chain", "fact_authorize_response_chain", "fact_introspect_chain",
     "fact_reserved_covers_fields", "fact_empty_vp_checked", "fact_nonce_ttl_covers_window", "fact_ttls",
-    "fact_verifyvp_args", "fact_introspection_fields", "fact_access_token_init", "fact_introspection_init",
+    "fact_verifyvp_args", "fact_audience_exact", "fact_introspection_fields", "fact_access_token_init", "fact_introspection_init",
 ]
 
 STD = ["active", "aud", "client_id", "cnf", "exp", "iat", "iss", "presentation_definitions", "presentation_submissions", "scope", "vps"]
